@@ -85,7 +85,7 @@ def gen_form(rng, k, in_fn):
         # that never runs, or that the compiler lifts into statements), run as often as control reaches it
         ctx = rng.choice([c for c in CTX if c is not None and not (in_fn and c == "class")])
     return {"kind": kind, "n": rng.choice([1, 1, 2]), "bind": rng.random() < 0.6 and ctx is None, "ctx": ctx,
-            "spell": rng.choice(["-", "-", "-", "_", "R"]),     # eval-and-compile / eval_and_compile / hy.R.hy/core/result-macros.…
+            "spell": rng.choice(["-", "-", "-", "_", "R", "A"]),     # eval-and-compile / eval_and_compile / hy.R.hy/core/result-macros.… / required under an alias
             "val": rng.choice(["0", '""', "False", "[]", "None", "0.0", "#()", '"s"', "[1 2]"]),
             "inner": rng.choice(["ewc", "eac", "domac"])}
 
@@ -126,7 +126,7 @@ def generate(rng, tier):
         elif r < 0.99:
             # the same text run as a script (what `hy FILE` does), with and without a suffix: the first run compiles
             # and caches, the next one runs the cached bytecode
-            ops.append({"op": "run_path", "suffix": rng.choice(["", "", ".hy", ".txt"])})
+            ops.append({"op": "run_path", "suffix": rng.choice(["", "", ".hy", ".txt"]), "stem": rng.choice(["", "", "my-", "2nd-", "2"])})
             if rng.random() < 0.7:
                 ops.append(dict(ops[-1]))
         else:
@@ -151,6 +151,7 @@ class Model:
         self.fns = []           # per function: {"name", "run_log", "value"}
         self.t = 0
         self.ver = ver
+        self.uses_alias = False
         for f in desc["forms"]:
             if f["kind"] == "defn":
                 self.defn(f)
@@ -214,6 +215,9 @@ class Model:
                 return n.replace("-", "_")
             if sp == "R":
                 return "hy.R.hy/core/result-macros." + n
+            if sp == "A":
+                self.uses_alias = True
+                return "staged-" + n
             return n
 
         EWC, EAC, DOMAC = name("eval-when-compile"), name("eval-and-compile"), name("do-mac")
@@ -287,7 +291,11 @@ class Model:
         self.fns.append({"name": name, "run_log": fn_run, "value": val})
 
     def text(self):
-        return "\n".join(self.lines) + "\n"
+        pre = ""
+        if self.uses_alias:
+            pre = ("(require hy.core.result-macros [eval-and-compile :as staged-eval-and-compile eval-when-compile :as "
+                   "staged-eval-when-compile do-mac :as staged-do-mac])\n")
+        return pre + "\n".join(self.lines) + "\n"
 
 
 # ------------------------------------------------------------------ execution
@@ -366,11 +374,12 @@ def execute(desc):
                 import io
                 from hy.importer import runhy
                 sfx = op["suffix"]
-                sname = tag + "scr" + {"": "0", ".hy": "1", ".txt": "2"}[sfx]
-                st = scripts.get(sfx)
+                # (stems that are no Python identifiers are fine for scripts: a hyphen, a leading digit)
+                sname = op.get("stem", "") + tag + "scr" + {"": "0", ".hy": "1", ".txt": "2"}[sfx]
+                st = scripts.get(sname + sfx)
                 if st is None or st["ver"] != ver:
                     W.write(sname, model.text(), ext=sfx)
-                    st = scripts[sfx] = {"ver": ver, "pyc_valid": False}
+                    st = scripts[sname + sfx] = {"ver": ver, "pyc_valid": False}
                 del log.events[:]
                 err = io.StringIO()
                 saved_argv = list(sys.argv)
